@@ -1,6 +1,7 @@
 package world
 
 import (
+	"strings"
 	"verif/sim/internal/tape"
 )
 
@@ -81,6 +82,22 @@ func GenRequests(g *tape.Stream, fg *tape.Stream, s *Setup, p *Profile) [][]*Req
 	for i := 0; i < nh && len(s.Routes) > 0; i++ {
 		r := s.Routes[g.Intn(len(s.Routes))]
 		hots = append(hots, hotT{r.Inst[g.Intn(len(r.Inst))], r.Index, MethodsOf(r, r.AutoHead)})
+	}
+	if p.HotStatic && s.Static != nil && g.Intn(2) == 0 {
+		// the hot spot is a path of the Static tree (a directory with an index, mostly)
+		sp := StaticPaths[g.Intn(len(StaticPaths))]
+		if g.Intn(3) != 0 {
+			// a directory answered through its index file (two opens per request), spelled with
+			// the prefix this instance was given
+			sp = []string{"/sub/", "/"}[g.Intn(2)]
+			if strings.Trim(s.Static.Prefix, "/") != "" {
+				sp = "/" + strings.Trim(s.Static.Prefix, "/") + sp
+			}
+		}
+		if len(hots) == 0 {
+			hots = append(hots, hotT{})
+		}
+		hots[0] = hotT{sp, -99, []string{"GET", "HEAD"}}
 	}
 	if len(hots) > 0 {
 		hot, hotChain, hotMethods = hots[0].path, hots[0].chain, hots[0].methods
